@@ -338,14 +338,17 @@ def rule_c(ctx, out):
     GO_ = "sfs_generator.gasol_optimization"
     # functions whose result is the edge list of a networkx graph
     edge_funcs = set()
-    for f in ctx.p.funcs_in(GO_):
-        uses_nx = any(isinstance(c.func, ast.Attribute) and isinstance(c.func.value, ast.Name) and c.func.value.id == "nx" for c in calls_in(f.node))
+    for f in ctx.p.functions.values():
+        nx_names = {local for local, imp in ctx.r.imports.get(f.module.name, {}).items() if imp[0] == "module" and imp[1] == "networkx"}
+        if not nx_names:
+            continue
+        uses_nx = any(isinstance(c.func, ast.Attribute) and isinstance(c.func.value, ast.Name) and c.func.value.id in nx_names for c in calls_in(f.node))
         returns_edges = any(isinstance(r, ast.Return) and r.value is not None and any(isinstance(x, ast.Attribute) and x.attr in ("edges", "nodes", "successors")
                                                                                        for x in ast.walk(r.value)) for r in own_nodes(f.node))
         if uses_nx and returns_edges:
             edge_funcs.add(f.name)
-    if "simplify_dependences" not in edge_funcs:
-        raise AnalysisError("simplify_dependences is no longer recognised as returning the edges of a networkx graph")
+    if not edge_funcs:
+        raise AnalysisError("no function returning the edges of a networkx graph found (simplify_dependences expected)")
     # generate_dependences: every pair it appends consists of integer index expressions
     gd = ctx.func(f"{GO_}.generate_dependences")
     rets = {r.value.id for r in own_nodes(gd.node) if isinstance(r, ast.Return) and isinstance(r.value, ast.Name)}
